@@ -105,7 +105,7 @@ func buildCall(ctx context.Context, table string, op opSpec, opts ...func(hrpc.C
 	switch op.Kind {
 	case "get":
 		return hrpc.NewGet(ctx, tb, op.Key, append([]func(hrpc.Call) error{hrpc.Families(markerFam(op.Marker))}, opts...)...)
-	case "put":
+	case "put", "cas":
 		return hrpc.NewPut(ctx, tb, op.Key, markerVals(op.Marker), opts...)
 	case "del":
 		return hrpc.NewDel(ctx, tb, op.Key, markerVals(op.Marker), opts...)
@@ -186,6 +186,15 @@ func doOp(cl gohbase.Client, ctx context.Context, table string, op opSpec) (err 
 			return e, nil
 		}
 		return nil, checkEcho(r, op.Key, op.Marker)
+	case "cas":
+		ok, e := cl.CheckAndPut(call.(*hrpc.Mutate), "f", op.Marker, []byte("expected"))
+		if e != nil {
+			return e, nil
+		}
+		if want := sim.H(op.Key, []byte(op.Marker), []byte("cas"))&1 == 1; ok != want {
+			return nil, fmt.Errorf("check-and-put returned %v, the server produced %v for row %q marker %s", ok, want, op.Key, op.Marker)
+		}
+		return nil, nil
 	case "inc":
 		v, e := cl.Increment(call.(*hrpc.Mutate))
 		if e != nil {
